@@ -17,6 +17,16 @@ CHECKS = {
           "nesting of every Go type, random beyond.", TRUST, "DESIGN.md §4 C01"),
  "C03": C("same model with the gob normal form GFItem; GobEncode/GobDecode, per-type and binary pairs replayed; JsonRTTrace.tla judges",
           "As C01 for the gob/binary codec with nanoseconds and zones preserved.", TRUST, "DESIGN.md §4 C03"),
+ "C02": C("TLA+ Text.tla (alphabet of character classes, reference escaper, grammar and invertibility checked by TLC over Sigma^<=L); "
+          "TLC enumerates the strings; every string-bearing position x both MarshalJSON paths executed and parsed with encoding/json; "
+          "TextTrace.tla judges validity, duplicates, injected members and byte-exact strings",
+          "Exhaustive over Sigma^<=2 (39 symbols incl. quotes, backslashes, controls, invalid UTF-8, JSON fragments) x 31 positions x 2 "
+          "encoder entry points; length 3 on a rotation (thorough: all).  Term/kind correctness of every property is checked by C05.",
+          TRUST, "DESIGN.md §4 C02"),
+ "C06": C("TLA+ Text.tla pipeline machine store->encode->decode (RoundTrip/WireValid invariants); all strings of Sigma^<=3 through the real "
+          "JSON and gob codecs in 5 text properties x 4 forms; TextTrace.tla judges bytes and tags",
+          "Exhaustive over Sigma^<=2 for all property/form/codec combinations, Sigma^3 on content and a rotation of the rest.",
+          TRUST, "DESIGN.md §4 C06"),
  "C07": C("TLA+ machine Dispatch.tla (channels x names x hook toggling, invariants OneGoType/HooksIrrelevant/NoWrongType) model-checked; "
           "the whole request space replayed on the registry, JSON and gob decoders with hooks unset and set; DispatchTrace.tla judges",
           "Exhaustive: every vocabulary/generic/empty/outsider name x 7 channels x 2 hook settings executed on the real code.",
@@ -29,6 +39,10 @@ CHECKS = {
           "harness performs it on every addressable Go type; RecipientsTrace.tla judges recorded events incl. random larger values",
           "Exhaustive TLC check of the de-duplication design for all cuts of <=3 entries; every transition for <=2 entries over a "
           "14-entry pool replayed on the real Recipients() of the Go types of its class; random values beyond.", TRUST, "DESIGN.md §4 C10"),
+ "C11": C("TLA+ Clean.tla (recursive CleanV along the walked properties, Leaks, idempotence; model-checked on the generated trees); "
+          "trees replayed on Clean() of every type offering it; CleanTrace.tla requires post = CleanV(pre), no leak, none in the JSON form",
+          "All generated trees (13 root types x positions x subtree shapes, lists, depth-4 chain) and random trees of depth <=3/4.",
+          TRUST, "DESIGN.md §4 C11"),
  "C13": C("TLA+ state machine (Collections.tla) model-checked by TLC; every model transition replayed on the six real containers and "
           "random histories recorded from them, all judged by the trace specification CollectionsTrace.tla",
           "Exhaustive TLC check of the ordered-set design for a pool of 4-5 ids; every (kind, contents, op) transition of the model is "
@@ -41,6 +55,10 @@ CHECKS = {
  "C15": C("TLA+ machine CollPath.tla (join/split walk with round-trip invariants) over IRI.tla; every owner x name replayed through "
           "IRIf/Split/OfActor/ValidCollectionIRI/Of/IRI; CollPathTrace.tla judges results parsed with net/url",
           "Exhaustive over the generated owner space (516 owners x 8 names, nested once) and the helper cases.", TRUST, "DESIGN.md §4 C15"),
+ "C16": C("TLA+ Flatten.tla (FlatV, relation FlattenWhy, IrisOf; SpecSatisfiesRelation/NoInvention/Idempotent model-checked); cases "
+          "replayed through FlattenProperties and the direct functions twice; FlattenTrace.tla judges",
+          "Roots x flattened positions x 10 child shapes, addressing lists with duplicates, frame cases; random depth-2 values.",
+          TRUST, "DESIGN.md §4 C16"),
  "C17": C("TLA+ Order.tla: strict-weak-order laws as ASSUMEs over all triples, sorting machine with termination; all pairs x Go types and "
           "all short lists replayed on ItemOrderTimestamp / sort.Slice; OrderTrace.tla judges",
           "Whole abstract space (17x17 pairs, lists <=4) on every object Go type in value and pointer form with zone presentations.",
@@ -48,6 +66,10 @@ CHECKS = {
  "C20": C("TLA+ matrix NilMatrix.tla (helpers x nil kinds x positions with the allowed outcome classes, totality model-checked); every "
           "cell executed on the real helper under recover(); NilMatrixTrace.tla judges outcome and callback-argument classes",
           "Exhaustive: the whole matrix (66 top-level helpers + 14 container helpers x 15 nil kinds x positions).", TRUST, "DESIGN.md §4 C20"),
+ "C18": C("TLA+ Copy.tla: merge relation MergeOK/MustRefuse over property maps, lattice model (unset/A/B per term) explored by TLC; "
+          "(to, from) pairs replayed on CopyItemProperties; CopyTrace.tla judges guards, frame, no-loss, merged-wins",
+          "Every own property x set/unset on both sides per supported type, ordered property pairs on 3 types, guard cases; random subsets.",
+          TRUST, "DESIGN.md §4 C18"),
  "C19": C("TLA+ state machine (NatLang.tla, Set specified as a relation by its post-condition) model-checked by TLC; every "
           "(contents, op) pair and every pair of tag-distinct lists replayed on the real NaturalLanguageValues, random "
           "histories recorded from it, all judged by NatLangTrace.tla",
